@@ -44,6 +44,8 @@ def _post(fl, M, L, pending):
             del sut.reads[:]
             r = sut.request('POST', 'transport=polling&sid=' + sid, None, BODY, env_extra={'CONTENT_LENGTH': L})
         else:
+            # (the ASGI server hands the body over in 1-3 http.request events)
+            sut.body_chunks = 1 + (len(sut.sids()[0]) + (1 if pending else 0)) % 3
             r = sut.request('POST', 'transport=polling&sid=' + sid, None, BODY)
             r.scope['headers'] = [(b'content-length', _IntHeader(L))]
         sut.settle()
